@@ -70,6 +70,7 @@ def check(ctx):
             if not ok:
                 ctx.violation("Q1", f"composition|{a}|{b}|{c}", tc.loc(tc.functions[f'{a}_to_{c}']), f"{a}->{b}->{c} != {a}->{c}")
     table(ctx, tc, units)
+    conversion_precedence(ctx, tc)
     pattern(ctx, repo, tc)
     families(ctx, s)
     ctx.floor("Q1", 12 + 12 + 24)
@@ -184,6 +185,61 @@ def table(ctx, tc, units):
     ctx.ob("Q2", ok=ok, distinct="factory-rename")
     if not ok:
         ctx.violation("Q2", "factory|rename", tc.loc(inn), f"the derived function's argument is not renamed to the source column ({fparams[0]})")
+
+
+def conversion_precedence(ctx, tc):
+    """conversions derived from data columns take precedence over those derived from functions"""
+    fd = find_function(tc, "create_time_conversion_functions", "primary anchor")
+    params = [a.arg for a in fd.args.args]
+    fparam, dparam = params[0], params[1]
+    env = {}
+    final = None
+
+    def layer_of(it):
+        names = {n.id for n in ast.walk(it) if isinstance(n, ast.Name)}
+        if fparam in names:
+            return "functions"
+        if dparam in names:
+            return "data"
+        return None
+
+    for st in fd.body:
+        if isinstance(st, ast.Assign) and isinstance(st.targets[0], ast.Name):
+            t, v = st.targets[0].id, st.value
+            if isinstance(v, ast.Dict) and not v.keys:
+                env[t] = []
+            elif isinstance(v, ast.Dict) and all(k is None for k in v.keys):
+                env[t] = [x for op in v.values for x in env.get(ast.unparse(op), ["?"])]
+            elif isinstance(v, ast.DictComp):
+                lay = None
+                for g_ in v.generators:
+                    lay = lay or layer_of(g_.iter)
+                env[t] = [lay or "?"]
+            elif isinstance(v, ast.BinOp) and isinstance(v.op, ast.BitOr):
+                env[t] = env.get(ast.unparse(v.left), ["?"]) + env.get(ast.unparse(v.right), ["?"])
+        elif isinstance(st, ast.For):
+            lay = layer_of(st.iter)
+            for n in ast.walk(st):
+                if isinstance(n, ast.Call) and isinstance(n.func, ast.Attribute) and n.func.attr == "update" and isinstance(n.func.value, ast.Name) and n.func.value.id in env:
+                    env[n.func.value.id] = env[n.func.value.id] + [lay or "?"]
+                if isinstance(n, ast.Assign) and isinstance(n.targets[0], ast.Subscript) and isinstance(n.targets[0].value, ast.Name) and n.targets[0].value.id in env:
+                    env[n.targets[0].value.id] = env[n.targets[0].value.id] + [lay or "?"]
+        elif isinstance(st, ast.Return) and st.value is not None:
+            if isinstance(st.value, ast.Name):
+                final = env.get(st.value.id)
+            elif isinstance(st.value, ast.Dict) and all(k is None for k in st.value.keys):
+                final = [x for op in st.value.values for x in env.get(ast.unparse(op), ["?"])]
+    if not final or "?" in final:
+        raise AnalysisError("create_time_conversion_functions: assembly of the result not recognised; Q2 (precedence) needs a re-read")
+    last = []
+    for x in final:
+        if x in last:
+            last.remove(x)
+        last.append(x)
+    ok = last == ["functions", "data"]
+    ctx.ob("Q2", ok=ok, distinct="data-over-functions")
+    if not ok:
+        ctx.violation("Q2", "precedence|" + "<".join(last), tc.loc(fd) + " create_time_conversion_functions", f"derived time-unit nodes are merged in the order {' < '.join(last)} (later wins); a conversion of a supplied data column must take precedence over one derived from a function, otherwise supplying an input in another unit is partly ignored")
 
 
 def pattern(ctx, repo, tc):
